@@ -93,6 +93,42 @@ Theorem C16_data_delivered : forall e d, b_data e = Some d -> data_inv e ->
 Proof. exact data_delivered. Qed.
 Print Assumptions C16_data_delivered.
 
+(* cwd() and detached() are part of the quantifier: the last cwd() wins, without one the directory is untouched
+   (the child inherits the parent's), detached is set exactly by a detached() call, and every terminator
+   launches with the description's argv, directory and environment (communicate() alone forces detached) *)
+Theorem C16_cwd_last_wins : forall base ops1 d ops2 e e',
+  run_plain base e (ops1 ++ OCwd d :: ops2) = Some e' -> forallb (fun o => negb (is_cwd o)) ops2 = true ->
+  b_cwd e' = Some d.
+Proof. exact cwd_last_wins. Qed.
+Print Assumptions C16_cwd_last_wins.
+
+Theorem C16_cwd_untouched : forall base ops e e',
+  run_plain base e ops = Some e' -> forallb (fun o => negb (is_cwd o)) ops = true -> b_cwd e' = b_cwd e.
+Proof. exact cwd_untouched. Qed.
+Print Assumptions C16_cwd_untouched.
+
+Theorem C16_detached_iff_called : forall base ops e e',
+  run_plain base e ops = Some e' -> b_detached e' = b_detached e || existsb is_detached ops.
+Proof. exact detached_iff_called. Qed.
+Print Assumptions C16_detached_iff_called.
+
+Theorem C16_terminate_carries : forall e t l, terminate e t = Some l ->
+  l_cwd l = b_cwd e /\ l_env l = b_env e /\ l_argv l = b_command e :: b_args e
+  /\ l_detached l = (match t with TCommunicate => true | _ => b_detached e end).
+Proof. exact terminate_carries. Qed.
+Print Assumptions C16_terminate_carries.
+
+Example C16_cwd_detached_nonvacuous :
+  match run_plain [] (cmd [120]) [OCwd [47]; OArg [97]; ODetached; OCwd [115]; OEnv [72] [49]] with
+  | Some e => b_cwd e = Some [115] /\ b_detached e = true
+              /\ option_map l_cwd (terminate e TJoin) = Some (Some [115])
+              /\ option_map l_detached (terminate e TCapture) = Some true
+  | None => False
+  end
+  /\ option_map l_detached (terminate (cmd [120]) TCommunicate) = Some true
+  /\ option_map l_detached (terminate (cmd [120]) TCapture) = Some false.
+Proof. vm_compute. auto 8. Qed.
+
 (* cloning: the two handles are independent and the clone equals the original at the moment of cloning *)
 Theorem C16_clone_independent : forall base cur other o st',
   step base (cur, other) o = Some st' ->
